@@ -18,6 +18,93 @@ def parseRawMethod (sm : Bytes) : Option (Bytes × Bytes) :=
     some (svc, meth)
   else none
 
+/-! ### `parseRawMethod` characterised (used by Props/C12) -/
+
+theorem tw_no (l : List Nat) : ∀ x ∈ l.takeWhile (· ≠ 47), x ≠ 47 := by
+  induction l with
+  | nil => simp
+  | cons a t ih =>
+    intro x hx
+    by_cases ha : a = 47
+    · simp [List.takeWhile, ha] at hx
+    · simp only [List.takeWhile_cons, ne_eq, ha, not_false_eq_true, decide_true, if_true, List.mem_cons] at hx
+      rcases hx with rfl | hx
+      · exact ha
+      · exact ih x hx
+
+theorem dw_shape (l : List Nat) (h : 47 ∈ l) : ∃ d, l.dropWhile (· ≠ 47) = 47 :: d := by
+  induction l with
+  | nil => simp at h
+  | cons a t ih =>
+    by_cases ha : a = 47
+    · exact ⟨t, by simp [List.dropWhile, ha]⟩
+    · have : 47 ∈ t := by
+        rcases List.mem_cons.mp h with h1 | h1
+        · exact absurd h1.symm ha
+        · exact h1
+      obtain ⟨d, hd⟩ := ih this
+      refine ⟨d, ?_⟩
+      rw [List.dropWhile_cons]
+      simp only [ne_eq, ha, not_false_eq_true, decide_true, if_true]
+      exact hd
+
+def strip (sm : Bytes) : Bytes := match sm with | 47 :: t => t | _ => sm
+
+def parseS (s : Bytes) : Option (Bytes × Bytes) :=
+  if s.contains 47 then
+    some (((s.reverse.dropWhile (· ≠ 47)).drop 1).reverse, (s.reverse.takeWhile (· ≠ 47)).reverse)
+  else none
+
+theorem parse_eq (sm : Bytes) : parseRawMethod sm = parseS (strip sm) := by
+  unfold parseRawMethod parseS strip
+  rfl
+
+theorem parseS_spec (s svc meth : Bytes) (h : parseS s = some (svc, meth)) :
+    s = svc ++ 47 :: meth ∧ 47 ∉ meth := by
+  unfold parseS at h
+  split at h
+  · rename_i hc
+    simp only [Option.some.injEq, Prod.mk.injEq] at h
+    obtain ⟨hs, hm⟩ := h
+    have hmem : 47 ∈ s.reverse := by simpa using hc
+    obtain ⟨d, hd⟩ := dw_shape _ hmem
+    have hsplit := List.takeWhile_append_dropWhile (p := (· ≠ 47)) (l := s.reverse)
+    have hrev : s = (s.reverse.dropWhile (· ≠ 47)).reverse ++ (s.reverse.takeWhile (· ≠ 47)).reverse := by
+      have := congrArg List.reverse hsplit
+      rw [List.reverse_append, List.reverse_reverse] at this
+      exact this.symm
+    refine ⟨?_, ?_⟩
+    · rw [hd] at hs hrev
+      simp only [List.drop_succ_cons, List.drop_zero] at hs
+      rw [← hs, ← hm]
+      simpa using hrev
+    · rw [← hm]
+      intro hin
+      exact tw_no _ 47 (List.mem_reverse.mp hin) rfl
+  · simp at h
+
+theorem tw_prefix (l r : List Nat) (hl : ∀ x ∈ l, x ≠ 47) :
+    (l ++ 47 :: r).takeWhile (· ≠ 47) = l ∧ (l ++ 47 :: r).dropWhile (· ≠ 47) = 47 :: r := by
+  induction l with
+  | nil => simp [List.takeWhile, List.dropWhile]
+  | cons a t ih =>
+    have ha : a ≠ 47 := hl a (by simp)
+    have := ih (fun x hx => hl x (by simp [hx]))
+    simp only [List.cons_append, List.takeWhile_cons, List.dropWhile_cons, ne_eq, ha, not_false_eq_true,
+      decide_true, if_true]
+    exact ⟨by rw [this.1], this.2⟩
+
+theorem parseS_complete (svc meth : Bytes) (hm : 47 ∉ meth) : parseS (svc ++ 47 :: meth) = some (svc, meth) := by
+  unfold parseS
+  have hc : (svc ++ 47 :: meth).contains 47 = true := by simp
+  rw [if_pos hc]
+  have hrev : (svc ++ 47 :: meth).reverse = meth.reverse ++ 47 :: svc.reverse := by simp
+  have hno : ∀ x ∈ meth.reverse, x ≠ 47 := by
+    intro x hx h47; subst h47; exact hm (List.mem_reverse.mp hx)
+  obtain ⟨h1, h2⟩ := tw_prefix meth.reverse svc.reverse hno
+  rw [hrev, h1, h2]
+  simp
+
 /-- what a Server knows: its name and the registered services -/
 structure ServerView where
   name : Bytes
